@@ -212,8 +212,9 @@ def run(chk):
     os.remove(dump)
     chk.replayed += n
     chk.exhaustive = True
-    chk.rule = ("5 solvable library models (backward AR(1) with constant; one lag + one lead; the same driven by an AR(1) with two shocks; a log-linear model "
-                "with log-variables; a measurement equation with a lagged state and a measurement shock) x level/deviation x 3 initial windows x "
+    chk.rule = ("8 solvable library models (backward AR(1) with constant; one lag + one lead; the same driven by an AR(1) with two shocks; a log-linear model "
+                "with log-variables; a measurement equation with a lagged state and a measurement shock; a second lead; a second lag; a linearised balanced-growth "
+                "model whose steady state is a path) x level/deviation x 3 initial windows x "
                 "4 unanticipated x 4 anticipated shock profiles, 4 periods; plus root counts incl. an indeterminate and an explosive instance; a case is one simulation")
     chk.assumptions = ["models and parameter values are those of the library (rational roots 1/2, 1/3, 2, 3); arbitrary parameters, complex roots and larger models are out of bound",
                        "scipy QZ / numpy primitives are trusted; tolerance 1e-9"]
